@@ -19,4 +19,9 @@ var props = map[string]propDef{
 			Assumptions: []string{"objects are only built through the public API (zero value, ParseVector, Set); fields are unexported and no unsafe/reflect touches them (R07.writers, C14 census)"},
 		},
 	},
+	"DBG": {
+		Groups: []string{"layout", "vocab"},
+		Rules:  []string{"R*"},
+		Meta:   propMeta{Level: "other", Explanation: "debug"},
+	},
 }
